@@ -45,6 +45,12 @@ def projection(name):
         return ccrs.PlateCarree()
     if name == "mollweide":
         return ccrs.Mollweide()
+    if name == "rob100":
+        return ccrs.Robinson(central_longitude=100)
+    if name == "ortho":
+        return ccrs.Orthographic(central_longitude=-30, central_latitude=20)
+    if name == "ortho2":
+        return ccrs.Orthographic(central_longitude=150, central_latitude=-40)
     raise ValueError(name)
 
 
@@ -144,12 +150,13 @@ def tree_defaults(op):
     return op.get("coords") or "nodes", op.get("csys") or "cartesian", op.get("metric") or "minkowski"
 
 
-def probe_tree(t, op):
-    """Fixed probe queries in the coordinate system REQUESTED by the call."""
+def probe_tree(t, op, n_expected=None):
+    """Fixed probe queries in the coordinate system REQUESTED by the call; k runs up to the number
+    of elements of the requested kind as the GRID reports it (not the tree's own count)."""
     from . import model as M
 
     coords, csys, metric = tree_defaults(op)
-    n = t._n_elements
+    n = int(n_expected) if n_expected else t._n_elements
     if csys == "spherical":
         if op["type"] == "ball":
             pts = np.array(PROBE_LONLAT)  # (lon, lat)
@@ -158,7 +165,7 @@ def probe_tree(t, op):
     else:
         pts = M.unit(np.array([p[0] for p in PROBE_LONLAT]), np.array([p[1] for p in PROBE_LONLAT]))
     out = []
-    for k in sorted({1, min(3, n)}):
+    for k in sorted({1, min(3, n), n if n <= 400 else 3}):
         try:
             d, ind = t.query(pts, k=k)
             out.append(("q", k, C.canon(np.asarray(d, dtype=np.float64)), C.canon(np.asarray(ind))))
@@ -167,8 +174,8 @@ def probe_tree(t, op):
     return tuple(out)
 
 
-def canon_tree(t, op):
-    return ("tree", type(t).__name__, str(t._coordinates), str(t.coordinate_system), str(t.distance_metric), probe_tree(t, op))
+def canon_tree(t, op, n_expected=None):
+    return ("tree", type(t).__name__, str(t._coordinates), str(t.coordinate_system), str(t.distance_metric), probe_tree(t, op, n_expected))
 
 
 # ----------------------------------------------------------------------------
@@ -214,7 +221,9 @@ def apply(W, op):
         return canon_linec(g.to_linecollection(**kw))
     if name == "tree":
         t = get_tree(g, op)
-        return canon_tree(t, op)
+        coords = tree_defaults(op)[0]
+        n_exp = {"nodes": lambda: g.n_node, "face centers": lambda: g.n_face, "edge centers": lambda: g.n_edge}[coords]()
+        return canon_tree(t, op, n_exp)
     if name == "chunk":
         g.chunk(n_node=op.get("n_node", -1), n_edge=op.get("n_edge", -1), n_face=op.get("n_face", -1))
         return None
